@@ -191,13 +191,50 @@ fn miri_runs_c11(opts: &Opts) -> Vec<miri::MiriRun> {
         .collect()
 }
 
+/// A 2-bit proof made natively (real Ristretto) for the Miri scenario in which threads
+/// concurrently decode and verify the same proof: (proof hex, commitment hex).
+fn native_proof_for_miri(seed: u64) -> Option<(String, String)> {
+    use curve25519_dalek::{ristretto::RistrettoPoint, scalar::Scalar};
+    use group::Group;
+    use tari_bulletproofs_plus::{commitment_opening::CommitmentOpening, range_witness::RangeWitness};
+    let params = RistrettoPoint::params(2, 1, RistrettoPoint::pedersen(1)).ok()?;
+    let blind = world::scalar_from_seed("miri-proof", seed, 0);
+    let value = 1 + (seed % 3);
+    let c = RistrettoPoint::commit(params.pc_gens(), &Scalar::from(value), &[blind]).ok()?;
+    let w = RangeWitness::init(vec![CommitmentOpening::new(value, vec![blind])]).ok()?;
+    let st = RistrettoPoint::statement(params, vec![c], vec![None], None).ok()?;
+    let mut t = merlin::Transcript::new(b"miri-sched");
+    let mut rng = faultrng::FaultRng::new(faultrng::RngMode::Healthy(seed));
+    let proof = RistrettoPoint::prove(&mut t, &st, &w, &mut rng).ok()?;
+    Some((hex::encode(RistrettoPoint::to_bytes(&proof)), hex::encode(RistrettoPoint::enc(&c))))
+}
+
 fn miri_runs_c18(opts: &Opts) -> Vec<miri::MiriRun> {
     if std::env::var("BPSIM_NO_MIRI").is_ok() {
         return vec![];
     }
     let mut v = Vec::new();
     let base = (opts.seed % 1_000_000) * 10_000 + 5_000;
-    let (n_table, n_race, n_full) = if opts.tier == Tier::Quick { (10u64, 6u64, 0u64) } else { (96, 96, 48) };
+    let (n_table, n_race, n_full, n_verify) = if opts.tier == Tier::Quick { (6u64, 4u64, 0u64, 6u64) } else { (96, 96, 48, 96) };
+    // the slow scenarios first so that the workers stay busy
+    if let Some((proof, commitment)) = native_proof_for_miri(opts.seed) {
+        for i in 0..n_verify {
+            // one third of the runs verify a corrupted copy (last byte of r1 changed): verdict Err
+            let reject = i % 3 == 2;
+            let mut p = proof.clone();
+            if reject {
+                // flip the lowest bit of the first byte of r1 (element 1 + 3 after the degree byte and d1)
+                let off = 2 * (1 + 32 * 4);
+                let b = u8::from_str_radix(&p[off..off + 2], 16).unwrap_or(0) ^ 1;
+                p.replace_range(off..off + 2, &format!("{:02x}", b));
+            }
+            v.push(miri::MiriRun {
+                args: vec!["shared-verify".into(), (2 + i % 2).to_string(), "2".into(), p, commitment.clone(), if reject { "reject".into() } else { "accept".into() }],
+                seed: base + 3_000 + i,
+                preemption_rate: RATES[(i % 3) as usize].into(),
+            });
+        }
+    }
     for i in 0..n_full {
         v.push(miri::MiriRun {
             args: vec!["shared-params".into(), (2 + i % 2).to_string(), "1".into()],
